@@ -193,14 +193,7 @@ class Drive:
 
 
 def find_script(scripts_path, run):
-    with open(scripts_path) as f:
-        for line in f:
-            if not line.strip():
-                continue
-            s = json.loads(line)
-            if s["run"] == run:
-                return s
-    return None
+    return vlib.find_script(scripts_path, run)
 
 
 def signature(v, line, reset):
